@@ -308,8 +308,80 @@ def r13_2(prog, rep):
         rep.fail(rid, "prep_task/chdir-first", p.loc(), "prep_task does not chdir to the requested directory")
 
 
+def r13_8(prog, rep):
+    """When a tee is active (t->teeo / t->teee set) data_cb() first splices the job's output into t->mfd and then copies it on with
+    sendfile()/pread() *from* t->mfd: on every path of prep_task() that sets a tee, an open() whose descriptor becomes t->mfd must ask
+    for read access."""
+    rid = "R13.8"
+    p = prog.fn("prep_task", "echsx.c")
+    cfg = p.cfg
+
+    def sets_tee(x):
+        for l, kind, nn in writes(x):
+            t_ = lv(l)
+            if (t_.endswith("->teeo") or t_.endswith("->teee")) and nn.get("k") == "bin" and nn["op"] == "=":
+                r_ = strip_casts(cfg.resolve(nn["r"]))
+                while r_.get("k") == "bin" and r_.get("op") == "=":     # a = b = c = -1
+                    r_ = strip_casts(r_["r"])
+                v = const_eval(p, r_)
+                if v is None or v >= 0:
+                    return True
+        return False
+    n = ntee = 0
+    for b, i, x, line in cfg.all_elems():
+        tg = [lv(l) for l, kind, nn in writes(cfg.resolve(x)) if kind == "assign"]
+        if not any(t_.endswith("->mfd") or t_.endswith(".mfd") for t_ in tg):
+            continue
+        for c in calls(cfg.resolve(x)):
+            if c.get("fn") not in ("open", "openat", "open64"):
+                continue
+            n += 1
+            hits, _ = backward_scan(cfg, (b, i), lambda bb, ii, xx: "hit" if isinstance(xx, dict) and sets_tee(xx) else None)
+            if not hits:
+                continue        # no tee on any path to here: the descriptor is only written to, the mailer re-opens the file by name
+            ntee += 1
+            fl = const_eval(p, c["a"][1] if c["fn"] != "openat" else c["a"][2])
+            key = "prep_task/mfd-readable-under-tee#%d" % ntee
+            if fl is None:
+                rep.fail(rid, key, p.loc(c.get("line", line)), "open flags of the mail file are not a compile-time constant")
+            elif (fl & 3) in (0, 2):
+                rep.ok(rid, key, p.loc(c.get("line", line)), "with a tee set, the file that becomes t->mfd is opened %s" % ("O_RDWR" if fl & 3 == 2 else "O_RDONLY"))
+            else:
+                rep.fail(rid, key, p.loc(c.get("line", line)), "a tee is set on a path to here and the file that becomes t->mfd is opened write-only (flags %#o): "
+                         "data_cb()'s sendfile()/pread() from it fail, the second copy (the mail / the user's other file) stays empty" % fl)
+    if n < 4 or ntee < 1:
+        rep.broken_("rule=R13.8 expected >=4 open() sites feeding t->mfd, >=1 of them under a tee; found %d/%d" % (n, ntee))
+
+
 def r13_3(prog, rep):
     rid = "R13.3"
+    # the lock is taken relative to the end of the journal and the write position is moved there *under* the lock
+    fl_ = prog.fn("fdlock", "echsx.c")
+    fcs = [S for S in call_sites(fl_, "fcntl")]
+    if not fcs:
+        rep.fail(rid, "fdlock/seek-to-end-under-lock", fl_.loc(), "fdlock() no longer takes an fcntl() lock")
+    else:
+        bad = []
+        for b, i, x, line in fl_.cfg.all_elems():
+            if not (isinstance(x, dict) and x.get("k") == "ret"):
+                continue
+            e = x.get("e")
+            v = const_eval(fl_, fl_.cfg.resolve(e)) if e is not None else None
+            if v is not None and v < 0:
+                continue        # failure return
+            hits, reached_entry = backward_scan(fl_.cfg, (b, i), lambda bb, ii, xx: "hit" if (elem_has_call(xx, "lseek") or elem_has_call(xx, "fcntl")) else None)
+            if reached_entry or any(not elem_has_call(fl_.cfg.elem(*h), "lseek") for h in hits):
+                bad.append(line)
+            else:
+                for h in hits:
+                    for c in calls(fl_.cfg.elem(*h)):
+                        if c.get("fn") == "lseek" and const_eval(fl_, c["a"][2]) != 2:
+                            bad.append(line)
+        if bad:
+            rep.fail(rid, "fdlock/seek-to-end-under-lock", fl_.loc(bad[0]), "fdlock() can report success without having moved the descriptor to the end of the "
+                     "journal after the lock was granted: a record another execution appended while we waited is overwritten")
+        else:
+            rep.ok(rid, "fdlock/seek-to-end-under-lock", fl_.loc(), "every successful return of fdlock() has done lseek(fd, 0, SEEK_END) after the lock")
     j = prog.fn("jlog_task", "echsx.c")
     cfg = j.cfg
     lk, ul = call_sites(j, "fdlock"), call_sites(j, "fdunlck")
@@ -529,6 +601,8 @@ def run(prog, rep, tier, snap):
     rep.call(r13_2, prog, rep)
     rep.rule("R13.3", "journal lock pairing, status provenance, clean-up", 6)
     rep.call(r13_3, prog, rep)
+    rep.rule("R13.8", "with a tee active the mail descriptor is opened for reading back", 1)
+    rep.call(r13_8, prog, rep)
     rep.rule("R13.5", "tee offset into the shared mail file derives from the file's own position", 2)
     rep.call(r13_5, prog, rep)
     from ..rules import watch
